@@ -15,6 +15,11 @@ SQLite part (real engine, differential oracle - Pony against Pony):
     get         E.get(a=seen)                            (entity finder: the attribute's own converter)
     optimistic  read E[1].a, change another attribute, commit: the optimistic check re-sends the
                 loaded dbval as a parameter and must still find the row
+  lazy=True variant of every type (Required and Optional; entity with the same declaration twice, `a` lazy
+  and `c` eager): the object is loaded WITHOUT the lazy column in a fresh session and the attribute is
+  fetched on first access (Attribute.load -> db_set) through three paths - lazy-pk E[1].a, lazy-query
+  select(x for x in E if x.id == 1)[:][0].a, lazy-load o.load(E.a); o.a - each must equal `seen` (a
+  disagreement that the eager twin `c` shows identically is the eager read's, judged above).
   A value Pony refuses (constructor raises, flush raises, query form not translatable) is counted,
   never judged: the property quantifies over accepted values only. NaN has no equality: not judged.
 
@@ -50,6 +55,13 @@ def define(db, specs):
     T = _types()
     for spec in specs:
         cls = getattr(orm, spec['kind'])
+        if spec.get('lazy'):
+            type(spec['name'], (db.Entity,), dict(
+                id=orm.PrimaryKey(int),
+                a=cls(T[spec['tkey']], *spec['args'], lazy=True, **spec['kw']),
+                c=cls(T[spec['tkey']], *spec['args'], lazy=False, **spec['kw']),
+                b=orm.Optional(int)))
+            continue
         type(spec['name'], (db.Entity,), dict(
             id=orm.PrimaryKey(int),
             a=cls(T[spec['tkey']], *spec['args'], **spec['kw']),
@@ -58,7 +70,9 @@ def define(db, specs):
 _PROC = {}
 _SPECS = {}
 def spec_by_name(name):
-    if not _SPECS: _SPECS.update((s['name'], s) for s in G.specs())
+    if not _SPECS:
+        _SPECS.update((s['name'], s) for s in G.specs())
+        _SPECS.update((s['name'], s) for s in G.lazy_specs())
     return _SPECS[name]
 
 def sqlite_db(name):
@@ -294,6 +308,126 @@ def sqlite_case(spec, v):
         merged.update(('update:' + k, x) for k, x in u.items())
     return status, seen_any, merged, counters, detail
 
+# ---- lazy attributes: first-access fetch ---------------------------------------------------------------
+def _lazy_session1(E, v, entry, base):
+    from pony.orm import db_session, flush, rollback
+    db = E._database_
+    with db_session:
+        db.execute('delete from %s' % db.provider.quote_name(E._table_))
+    if entry == 'update':
+        with db_session:
+            E(id=1, a=base, c=base)
+    with db_session:
+        try:
+            if entry == 'create': o = E(id=1, a=v, c=v)
+            else:
+                o = E[1]            # loaded without the lazy column
+                o.a = v
+                o.c = v
+        except Exception as e:
+            rollback()
+            return 'rejected', type(e).__name__
+        try:
+            flush()
+            return 'seen', plain(o.a)
+        except Exception as e:
+            rollback()
+            return 'refused-at-flush', type(e).__name__
+
+def same_plain(a, b):
+    """two observations of the same session are the same Python value (type and content)"""
+    if type(a) is not type(b): return False
+    if isinstance(a, dict): return set(a) == set(b) and all(same_plain(a[k], b[k]) for k in a)
+    if isinstance(a, (list, tuple)): return len(a) == len(b) and all(same_plain(x, y) for x, y in zip(a, b))
+    return a == b
+
+LAZY_OBSERVERS = ('lazy-pk', 'lazy-query', 'lazy-load')
+def _lazy_observe(E):
+    """-> dict observer -> ('value', lazy value, eager twin value, fetched by its own SELECT) | ('exc', name, stage)"""
+    from pony.orm import db_session, select, rollback
+    db = E._database_
+    out = {}
+    def run(name, get_obj, explicit):
+        stage = 'object load'
+        try:
+            with db_session:
+                try:
+                    o = get_obj()
+                    eager = plain(o.c)
+                    sql0 = db.last_sql
+                    stage = 'lazy fetch'
+                    if explicit: o.load(E.a)
+                    val = plain(o.a)
+                    out[name] = ('value', val, eager, db.last_sql != sql0)
+                except Exception: rollback(); raise
+        except Exception as e:
+            out[name] = ('exc', type(e).__name__, stage)
+    run('lazy-pk', lambda: E[1], False)
+    run('lazy-query', lambda: select(x for x in E if x.id == 1)[:][0], False)
+    run('lazy-load', lambda: E[1], True)
+    return out
+
+def lazy_case(spec, v):
+    """-> (status, seen, failures{observer: kind}, counters, detail)"""
+    db = sqlite_db(spec['name'])
+    E = db.entities[spec['name']]
+    f = spec['family']
+    counters, per_entry, detail, seen_any, status = {}, {}, {}, None, None
+    def cnt(k): counters[k] = counters.get(k, 0) + 1
+    for entry in ('create', 'update'):
+        st, seen = _lazy_session1(E, v, entry, BASE[f])
+        if st != 'seen':
+            cnt('lazy_%s:%s' % (st, seen)); status = status or st
+            continue
+        status, seen_any = 'seen', seen
+        if G.vclass(spec, seen) in ('nan', 'contains nan'):
+            cnt('not_judged:nan'); continue
+        fails = {}
+        for name, ob in sorted(_lazy_observe(E).items()):
+            if ob[0] == 'exc':
+                if ob[2] == 'object load': cnt('lazy_not_judged:eager twin unreadable (%s)' % ob[1])
+                else:
+                    cnt('lazy_reads_compared'); fails[name] = 'raises ' + ob[1]
+                continue
+            _, val, eager, fetched = ob
+            cnt('lazy_reads_compared')
+            if fetched: cnt('lazy_fetch_confirmed')
+            else: fails[name] = 'no separate fetch: the lazy column came with the object'
+            d = diff(spec, seen, val)
+            if d is None: continue
+            if same_plain(eager, val):
+                cnt('lazy_same_as_eager_disagreement'); continue    # the eager read's own (known) disagreement
+            fails[name] = d; detail[entry + ':' + name] = repr(val)[:120]
+        per_entry[entry] = fails
+    if not per_entry: return status, seen_any, {}, counters, detail
+    c, u = per_entry.get('create', {}), per_entry.get('update', {})
+    if c == u or not u: merged = dict(c)
+    elif not c: merged = dict(('update:' + k, x) for k, x in u.items())
+    else:
+        merged = dict(('create:' + k, x) for k, x in c.items())
+        merged.update(('update:' + k, x) for k, x in u.items())
+    return status, seen_any, merged, counters, detail
+
+def lazy_chunk(item):
+    name, encs = item
+    sub = core.Sub()
+    spec = spec_by_name(name)
+    for e in encs:
+        v = G.dec(e)
+        status, seen, fails, counters, detail = lazy_case(spec, v)
+        for k, n in counters.items(): sub.count(k, n)
+        sub.count('lazy_cases')
+        if status != 'seen': continue
+        sub.count('lazy_cases_accepted')
+        sub.count('lazy_accepted:' + spec['family'] + (' (LongStr)' if spec['tag'] == 'long' else ''))
+        if fails:
+            fam = spec['family'] + (' (LongStr)' if spec['tag'] == 'long' else '')
+            sig = 'sqlite:lazy attribute:%s:%s:%s' % (fam, G.vclass(spec, seen), '; '.join('%s=%s' % kv for kv in sorted(fails.items())))
+            sub.violation(sig, dict(part='lazy', spec=name, decl=spec['decl'], value=e),
+                          'sqlite %s: wrote %s, program saw %s after flush; first access in a fresh session: %s %s'
+                          % (spec['decl'], e[:80], repr(seen)[:80], '; '.join('%s: %s' % kv for kv in sorted(fails.items())), detail or ''))
+    return sub.dump()
+
 ROUNDED = 'equals the seen value rounded half-even to the declared scale'
 
 def fold_consequences(spec, fails):
@@ -476,6 +610,7 @@ def codec_chunk(item):
 def _dispatch(item):
     kind = item[0]
     if kind == 'sqlite': return sqlite_chunk(item[1:])
+    if kind == 'lazy': return lazy_chunk(item[1:])
     if kind == 'functions': return codec_functions(item)
     return codec_chunk(item[1:])
 
@@ -490,6 +625,11 @@ def work_items(quick):
         distinct += len(encs)
         for i in range(0, len(encs), CHUNK):
             items.append(('sqlite', spec['name'], encs[i:i + CHUNK]))
+    for spec in G.lazy_specs():
+        encs = [G.enc(v) for v in G.lazy_grid(spec, quick)]
+        distinct += len(encs)
+        for i in range(0, len(encs), CHUNK):
+            items.append(('lazy', spec['name'], encs[i:i + CHUNK]))
     items.append(('functions', quick))
     return items, distinct
 
@@ -506,6 +646,10 @@ def run(ctx):
     ctx.guard('codec evaluations', c.get('codec_evaluations', 0), 10000)
     for fam in sorted(set(s['family'] for s in G.specs())):
         ctx.guard('accepted values of type ' + fam, c.get('accepted:' + fam, 0), 4)
+    ctx.guard('lazy first-access reads compared', c.get('lazy_reads_compared', 0), 3000)
+    ctx.guard('lazy reads confirmed to be a separate fetch of the column', c.get('lazy_fetch_confirmed', 0), 3000)
+    for fam in sorted(set(s['family'] + (' (LongStr)' if s['tag'] == 'long' else '') for s in G.lazy_specs())):
+        ctx.guard('accepted values of lazy type ' + fam, c.get('lazy_accepted:' + fam, 0), 2)
     ctx.assume('SQLite 3 is the real engine; server-side storage of PostgreSQL/MySQL (rounding of NUMERIC, '
                'TIME/DATETIME fsp, collations) is out of reach and not claimed')
     ctx.assume('converter round trips for PostgreSQL/MySQL assume the driver returns the Python object it was '
@@ -513,10 +657,11 @@ def run(ctx):
                'the reference manual (model-based)')
     ctx.assume('float equality uses the converter\'s documented relative tolerance 1e-14; NaN is not judged')
     evaluations = (c.get('read_compared', 0) + c.get('param_lookups_judged', 0) + c.get('optimistic_checked', 0)
-                   + c.get('precision_checks', 0) + c.get('codec_evaluations', 0))
+                   + c.get('precision_checks', 0) + c.get('codec_evaluations', 0) + c.get('lazy_reads_compared', 0))
     return dict(evaluations=evaluations, distinct_nontrivial=distinct + c.get('codec_converter_judged', 0),
                 rule='(declaration, grid value) pairs written through INSERT and UPDATE on SQLite, each read back '
-                     'through pk / projection / query parameter / Entity.get / optimistic check; plus (dialect, '
+                     'through pk / projection / query parameter / Entity.get / optimistic check; lazy=True variants read on '
+                     'first access after pk load / entity query / obj.load(attr); plus (dialect, '
                      'declaration, value) converter round trips and text-codec grid points for PostgreSQL/MySQL. '
                      'An evaluation is one comparison of an observation with the value seen after flush.')
 
@@ -525,6 +670,11 @@ def replay(ctx, case):
     if part == 'sqlite':
         spec = spec_by_name(case['spec'])
         status, seen, fails, counters, detail = sqlite_case(spec, G.dec(case['value']))
+        print('sqlite', spec['decl'], case['value'], '->', status, repr(seen)[:100], fails, detail)
+        return not fails
+    if part == 'lazy':
+        spec = spec_by_name(case['spec'])
+        status, seen, fails, counters, detail = lazy_case(spec, G.dec(case['value']))
         print('sqlite', spec['decl'], case['value'], '->', status, repr(seen)[:100], fails, detail)
         return not fails
     if part == 'converter':
